@@ -114,6 +114,7 @@ structure Watcher where
   maxRetry : Int := 5
   sendHup : Bool := false
   maxAge : Nat := 0          -- seconds
+  onDemand : Bool := false   -- started only by a connection to a managed socket (`on_demand`)
   hooks : List (String × HookSpec) := []
   hookCalls : List (String × Nat) := []
   ignoreFail : List String := ["before_stop", "after_stop", "before_signal", "after_signal", "extended_stats"]
@@ -179,6 +180,7 @@ inductive Kont where
   | arbReloadNext (rest : List Nat) (graceful sequential : Bool)
   | quitAfterStop
   | manageAfterStopOrSpawn (wuid : Nat)
+  | manageWatchersTail (needOnDemand : Bool)                -- manage_watchers after `yield list_to_yield`
   | killWaitOther (pid : Nat)                               -- kill_process: another kill of this process is in flight
   | multiSlot (fid slot : Nat)                              -- callback of gen.multi for one child
   | ignore                                                  -- result discarded, coroutine returns None
@@ -210,6 +212,8 @@ structure Arbiter where
   pubClosed : Bool := false
   ctlClosed : Bool := false
   loopStop : Bool := false                   -- loop.add_callback(self.loop.stop) was issued
+  socketEvent : Bool := false                -- Arbiter.socket_event: true only while manage_watchers starts on-demand watchers
+  sockReady : Bool := false                  -- environment: select() reports a managed socket readable
   deriving Repr, Inhabited
 
 /-- entries of the event loop's ready queue (`call_soon`) -/
